@@ -235,12 +235,39 @@ func init() {
 	})
 	eng.Register(&eng.Scenario{
 		Name: "prng-chunking", Props: []string{"C19"}, NoRace: true,
-		Doc: "prng: for 3 seeds, every composition of a 16-byte read into chunks (2^15) and every two-chunk split of a 40-byte read yield the same stream as one big read; equal seeds give equal sources and readers, zero-length reads change nothing",
+		Doc: "prng: for 3 seeds, every composition of a 16-byte read into chunks (2^15) and every two-chunk split of a 40-byte read yield the same stream as one big read; equal seeds (also the empty argument list, built repeatedly and interleaved) give equal sources and readers, zero-length reads change nothing",
 		Direct: func(rep *eng.DirectReport, shard, nshards int, thorough bool) {
 			seeds := [][]byte{nil, []byte("seed-a"), {0x80, 0xFF, 0x00}}
 			total := 16
 			if thorough {
 				total = 20
+			}
+			// no seed data at all (an empty argument list, also when spread from a nil slice): every build
+			// starts the same stream afresh, equal to the stream of one empty seed
+			if shard == 0 {
+				rep.Cases++
+				var none [][]byte
+				e1, e2 := prng.BuildSeededRand(), prng.BuildSeededRand(none...)
+				a1, a2 := e1.Uint64(), e1.Uint64()
+				b1 := e2.Uint64()
+				e3 := prng.BuildSeededRand()
+				c1, c2 := e3.Uint64(), e3.Uint64()
+				if a1 != b1 || a1 != c1 || a2 != c2 {
+					rep.Fail("C19.prng-seed", "sources built with no seed data are not reproducible: the n-th build does not replay the stream of the first", "BuildSeededRand() x3")
+				}
+				if z := prng.BuildSeededRand(nil).Uint64(); z != a1 {
+					rep.Fail("C19.prng-seed", "BuildSeededRand() and BuildSeededRand(nil) hash the same (empty) data but give different streams", "BuildSeededRand(), BuildSeededRand(nil)")
+				}
+				r1, r2 := make([]byte, 24), make([]byte, 24)
+				rd1 := prng.BuildSeededReader()
+				io.ReadFull(rd1, r1[:8])
+				rd2 := prng.BuildSeededReader()
+				io.ReadFull(rd2, r2[:8])
+				io.ReadFull(rd1, r1[8:])
+				io.ReadFull(rd2, r2[8:])
+				if !bytes.Equal(r1, r2) {
+					rep.Fail("C19.prng-seed", "two interleaved readers built with no seed data give different streams", "BuildSeededReader() x2")
+				}
 			}
 			idx := 0
 			for si, seed := range seeds {
